@@ -642,12 +642,20 @@ def segy_item(kind, bs, rate, nb, props, opts=None):
             elif fam == 'both-interior':
                 E.assume(b_and(w[0] >= 1, w[2] >= 1, w[1] < dims[0], w[3] < dims[1]))
             kw = dict(min_il=w[0], max_il=w[1], min_xl=w[2], max_xl=w[3])
-        with Quiet():
-            conv = C.SegyConverter(model.name, **kw)
-            if opts.get('runs') == 2:
-                conv.run('first.sgz', bits_per_voxel=4, blockshape=(1, 16, -1) if kind == '2d' else (4, 4, -1))
-            conv.run('out.sgz', bits_per_voxel=opts.get('bpv_in', rate), blockshape=opts.get('bs_in', bs),
-                     reduce_iops=bool(opts.get('reduce_iops')), header_detection=detection)
+        try:
+            with Quiet():
+                conv = C.SegyConverter(model.name, **kw)
+                if opts.get('runs') == 2:
+                    conv.run('first.sgz', bits_per_voxel=4, blockshape=(1, 16, -1) if kind == '2d' else (4, 4, -1))
+                conv.run('out.sgz', bits_per_voxel=opts.get('bpv_in', rate), blockshape=opts.get('bs_in', bs),
+                         reduce_iops=bool(opts.get('reduce_iops')), header_detection=detection)
+        except Exception as e:
+            if opts.get('samples') != 'fp':
+                raise
+            # float items: a path may have been entered although the float world could not decide its feasibility in the
+            # branch budget; whether this exception can really happen is decided with the full path condition
+            E.check(False, 'segy: the conversion of a valid source raised %s' % type(e).__name__)
+            return
         E.reached('segy:converted')
         st = fs.stores['out.sgz']
         return finish_segy(E, mm, fs, st, model, dims, bs, rate, props, opts, kw, H)
@@ -1087,7 +1095,7 @@ def items_for(prop, tier):
             # length) box; the solver time of a float query grows with the number of (interval, start) pairs in the box
             fp_boxes = [((1, 4095), (-2, 2), 3), ((4096, 16383), (-2, 2), 3), ((16384, 32767), (-2, 2), 3), ((32768, 49151), (-2, 2), 3),
                         ((49152, 65535), (-2, 2), 3), ((1, 999), (0, 0), 2), ((1, 999), (-1000, -1000), 7), ((1000, 1063), (7, 7), 100),
-                        ((1000, 1003), (-32768, 32767), 3)]
+                        ((1000, 1001), (-32768, 32767), 3)]
             if not quick:
                 fp_boxes += [((lo, lo + 4095), (-16, 16), 3) for lo in range(1, 65535, 4096)]
                 fp_boxes += [((1000, 1999), (7, 7), 100), ((1000, 1031), (-32768, 32767), 3), ((1, 1023), (0, 0), 256), ((333, 333 + 63), (-32768, 32767), 5), ((65000, 65535), (-32768, -32000), 4), ((65000, 65535), (32000, 32767), 4)]
@@ -1110,9 +1118,9 @@ def items_for(prop, tier):
                                                         ','.join('%s=%s' % kv for kv in sorted(o.items())))
             isfp = o.get('samples') == 'fp'
             if isfp:
-                o = dict(o, cvc5_s=400 if quick else 1500)
+                o = dict(o, cvc5_s=400 if quick else 900)
             it = _I(desc, (lambda kind=kind, bs=bs, rate=rate, nb=nb, o=o: segy_item(kind, bs, rate, nb, {prop}, o)),
-                    timeout_s=(1500 if quick else 5400) if isfp else (250 if quick else 600), solver_ms=10000 if quick else 60000)
+                    timeout_s=(1500 if quick else 3000) if isfp else (250 if quick else 600), solver_ms=10000 if quick else 60000)
             it.meta = dict(kind='segy-' + kind, bs=list(bs), rate=rate, nb=list(nb), opts=dict(o), prop=prop)
             items.append(it)
         if prop in ('C04', 'C05'):
